@@ -197,7 +197,7 @@ def check(model, rep):
     # evaluation, nothing is run): the rule speaks about the computation, not about how it is split into helpers and loops
     from ..engine import peval as _pe
     from ..engine.paths import paths_of_block
-    flat = _pe.flatten({n_: f_.node for n_, f_ in cls.methods.items()}, fi.node, depth=2, impure=True)
+    flat = _pe.flatten({n_: f_.node for n_, f_ in cls.methods.items()}, fi.node, depth=2, impure=True, consts=_pe.class_constants(cls.node))
     body = [s_ for s_ in flat.body if not (isinstance(s_, ast.Expr) and isinstance(s_.value, ast.Constant))]
     loops = [s for s in body if isinstance(s, ast.For)]
     if len(loops) != 1:
